@@ -561,3 +561,24 @@ Proof.
   eapply Permutation_trans; [exact P|].
   rewrite E. apply Permutation_refl.
 Qed.
+
+(* C02 reading of the same theorem: every record the default configuration reports carries
+   (trace, span id, parent) of one raw span of one submitted set under one of its token items
+   -- the item's trace; the item's parent for the roots of the set, the recorded parent for
+   the others -- and every such triple is reported *)
+Corollary default_reported_core_is_submitted (conv : N -> N) am b r :
+  cycle_inv am -> In r (snd (process conv false am b)) ->
+  In (core3 r) (flat_map coll_cores (submitted_colls (b_submit b))).
+Proof.
+  intros Hi Hin. destruct (default_batch_delivers_exactly conv am b Hi) as [P _].
+  eapply Permutation_in; [exact P|]. apply in_map. exact Hin.
+Qed.
+
+Corollary default_submitted_core_is_reported (conv : N -> N) am b x :
+  cycle_inv am -> In x (flat_map coll_cores (submitted_colls (b_submit b))) ->
+  exists r, In r (snd (process conv false am b)) /\ core3 r = x.
+Proof.
+  intros Hi Hin. destruct (default_batch_delivers_exactly conv am b Hi) as [P _].
+  apply Permutation_sym in P. pose proof (Permutation_in _ P Hin) as H.
+  apply in_map_iff in H. destruct H as (r & E & Hr). eauto.
+Qed.
